@@ -1,6 +1,8 @@
 import AmaranthVerif.Driver.StmtIO
 import AmaranthVerif.Model.Domain
 import AmaranthVerif.Spec.DomainSpec
+import AmaranthVerif.Model.DomainRename
+import AmaranthVerif.Spec.DomainRenameMap
 
 /-! # Reading designs with clock domains and wrappers (unverified I/O glue) -/
 
@@ -28,6 +30,31 @@ def applyWrapperM (D : Design) (p : Proc) : Wrapper → Proc
   | .enable d c => enableInserter D d c p
   | .rename s t => domainRenamer s t p
 
+/-- a wrapper as written in a request: one of the Spec's wrappers, or `(renamemap (src dst)*)` = a `DomainRenamer`
+whose map has several entries. The Model looks the domain up once (`domainRenamerMap`); the Spec gets the stack of
+one-entry renamings through private names `fresh`, `fresh + 1`, … (`renameMapWrappers`; `fresh` = number of domains
+of the design; a map naming a domain `≥ fresh` is refused). `Properties/C03.lean`: `rename_map_is_simultaneous`,
+`rename_map_model_eq`. -/
+def parseWrapperIO (ctx : Ctx) (fresh : Nat) : Sexp → Option (Sum Wrapper (List (Nat × Nat)))
+  | .list (.atom "renamemap" :: es) => do
+      let m ← es.mapM fun e => match e with
+        | .list [s, t] => do
+            let s ← toNat? s
+            let t ← toNat? t
+            if s < fresh && t < fresh then some (s, t) else none
+        | _ => none
+      some (.inr m)
+  | x => (parseWrapper ctx x).map .inl
+
+def applyWrapperIO (D : Design) (p : Proc) : Sum Wrapper (List (Nat × Nat)) → Proc
+  | .inl w => applyWrapperM D p w
+  | .inr m => domainRenamerMap m p
+
+def specWrappers (fresh : Nat) (ws : List (Sum Wrapper (List (Nat × Nat)))) : List Wrapper :=
+  ws.flatMap fun w => match w with
+    | .inl w => [w]
+    | .inr m => renameMapWrappers fresh m
+
 /-- `(c03 ctx (inits …) (resetless …) (doms cfg*) (actual (proc dom stmt)*) (leaves (leaf dom (wrappers w*) (prog item*))*) (step (env …) (chg (i v)*))*)` -/
 def handleC03 : Sexp → Option String
   | .list (.atom "c03" :: c :: ini :: rl :: .list (.atom "doms" :: ds) :: .list (.atom "actual" :: ps) ::
@@ -39,14 +66,17 @@ def handleC03 : Sexp → Option String
       let actual ← ps.mapM fun p => match p with
         | .list [.atom "proc", d, s] => do some ({ dom := ← parseDom d, body := ← parseStmt ctx s } : Proc)
         | _ => none
-      let leaves ← ls.mapM fun l => match l with
+      let fresh := doms.length
+      let leavesIO ← ls.mapM fun l => match l with
         | .list [.atom "leaf", d, .list (.atom "wrappers" :: ws), .list (.atom "prog" :: items)] => do
-            some ({ dom := ← parseDom d, prog := ← items.mapM (parseProg ctx), wrappers := ← ws.mapM (parseWrapper ctx) } : Leaf)
+            let ws ← ws.mapM (parseWrapperIO ctx fresh)
+            some (({ dom := ← parseDom d, prog := ← items.mapM (parseProg ctx), wrappers := specWrappers fresh ws } : Leaf), ws)
         | _ => none
+      let leaves := leavesIO.map (·.1)
       let DA : Design := { ctx, inits, resetLess, doms, procs := actual }
       let D0 : Design := { ctx, inits, resetLess, doms, procs := [] }
-      let modelProcs := leaves.map fun l =>
-        l.wrappers.foldl (applyWrapperM D0) ({ dom := l.dom, body := lowerList ctx l.prog } : Proc)
+      let modelProcs := leavesIO.map fun (l, ws) =>
+        ws.foldl (applyWrapperIO D0) ({ dom := l.dom, body := lowerList ctx l.prog } : Proc)
       let DM : Design := { DA with procs := modelProcs }
       let DS : SpecDesign := { ctx, inits, resetLess, doms, leaves }
       let outs ← steps.mapM fun st => match st with
